@@ -21,7 +21,11 @@ class StmtMixin:
         """turn the raise conditions collected while evaluating expressions into raise outcomes; the normal path
         continues under their negation"""
         for cond, exc, info in self.pending:
-            rs = st.assume(cond)
+            if info.__class__.__name__ == "RaisedIn":
+                rs = info.state.assume(cond)
+                info = info.info
+            else:
+                rs = st.assume(cond)
             if self.feasible(rs):
                 outs.append(Outcome("raise", rs, exc, info))
             st.pc = st.pc + (z3.Not(cond),)
